@@ -585,10 +585,26 @@ func (c *Conn) Write(p []byte) (int, error) {
 	}
 	l := c.out
 	l.mu.Lock()
+	taken := 0 // octets of this Write already accepted (a positive window takes what fits)
 	for l.cfg.Window != 0 && len(p) > 0 && !l.txClosed && !l.killed {
 		win := int64(max(0, l.cfg.Window))
 		if l.accepted-l.consumed+int64(len(p)) <= win {
 			break
+		}
+		if room := win - (l.accepted - l.consumed); room > 0 {
+			// like a socket buffer: the part that fits goes now
+			part := int(room)
+			l.pending = append(l.pending, p[:part]...)
+			l.sent = append(l.sent, p[:part]...)
+			l.accepted += int64(part)
+			l.lastWrite = time.Now()
+			taken += part
+			p = p[part:]
+			l.mu.Unlock()
+			c.w.Ev(c.name, "write", part, "partial")
+			signal(l.wakeTx)
+			l.mu.Lock()
+			continue
 		}
 		// blocked by flow control
 		l.Fired["write_blocked"]++
@@ -597,11 +613,11 @@ func (c *Conn) Write(p []byte) (int, error) {
 		closed, wdl := c.closed, c.wdl
 		c.mu.Unlock()
 		if closed {
-			return 0, net.ErrClosed
+			return taken, net.ErrClosed
 		}
 		if !wdl.IsZero() && !time.Now().Before(wdl) {
 			c.w.Ev(c.name, "write-deadline", 0, "")
-			return 0, os.ErrDeadlineExceeded
+			return taken, os.ErrDeadlineExceeded
 		}
 		var tc <-chan time.Time
 		var tm *time.Timer
@@ -621,7 +637,7 @@ func (c *Conn) Write(p []byte) (int, error) {
 	}
 	if l.txClosed || l.killed {
 		l.mu.Unlock()
-		return 0, io.ErrClosedPipe
+		return taken, io.ErrClosedPipe
 	}
 	n := len(p)
 	var werr error
@@ -640,9 +656,9 @@ func (c *Conn) Write(p []byte) (int, error) {
 	c.w.Ev(c.name, "write", n, "")
 	signal(l.wakeTx)
 	if h := c.WriteHook; h != nil && werr == nil {
-		h(n)
+		h(taken + n)
 	}
-	return n, werr
+	return taken + n, werr
 }
 
 func (c *Conn) Close() error {
